@@ -7,7 +7,7 @@ use serde_json::json;
 use crate::cachex::{check_accounting, item_len, open, puts_overlap, run_batch, Op, N_CHUNKS};
 use crate::engine::{Case, Ctx};
 
-pub const RULE: &str = "stream 'random': 1-3 batches of 2-3 threads x 1-5 operations (puts of equal / nested / disjoint / overlapping chunk ranges over <= 4 keys, gets), capacity from 'fits two items' to ample, each batch run under the schedule controller (schedule points outside the state lock after find-match, after the file write, after the commit, before every deferred deletion, inside item removal) with a generated schedule and a seeded eviction choice, optionally re-opening the directory with the same capacity between batches. stream 'exhaustive': four canonical pairs (identical put || identical put, put || evicting put, get || subsuming put, get after external delete || put) with ALL grant sequences enumerated. Oracle at every quiescent point: num_items() = number of tracked entries, total_bytes() = sum of their lengths, every cache-item-named file on disk is tracked, after reading every entry back tracked entries == files on disk and totals == file sizes, after every successful put total_bytes <= capacity. non-trivial = a schedule in which two puts overlapped in time (another thread ran put steps between one put's find-match and its commit); distinct by fingerprint of (operations, schedule)";
+pub const RULE: &str = "stream 'random': 1-3 batches of 2-3 threads x 1-5 operations (puts of equal / nested / disjoint / overlapping chunk ranges over <= 4 keys, gets), capacity from 'exactly the largest item of the case' and 'fits two items' to ample, each batch run under the schedule controller (schedule points outside the state lock after find-match, after the file write, after the commit, before every deferred deletion, inside item removal) with a generated schedule and a seeded eviction choice, optionally re-opening the directory with the same capacity between batches. stream 'exhaustive': four canonical pairs (identical put || identical put, put || evicting put, get || subsuming put, get after external delete || put) with ALL grant sequences enumerated. Oracle at every quiescent point: num_items() = number of tracked entries, total_bytes() = sum of their lengths, every cache-item-named file on disk is tracked, after reading every entry back tracked entries == files on disk and totals == file sizes, after every successful put total_bytes <= capacity. non-trivial = a schedule in which two puts overlapped in time (another thread ran put steps between one put's find-match and its commit); distinct by fingerprint of (operations, schedule)";
 
 pub const ASSUMPTIONS: &[&str] = &[
     "interleavings are explored at the granularity of the schedule points (every file-system effect and lock acquisition is separated by a point), not of instructions",
@@ -45,7 +45,7 @@ fn batch_strategy() -> impl Strategy<Value = Batch> {
 }
 
 fn case_strategy() -> impl Strategy<Value = C13Case> {
-    (0u8..3, any::<u16>(), proptest::collection::vec(batch_strategy(), 1..=3), any::<u64>()).prop_map(|(cap_kind, cap_mag, batches, evict_seed)| C13Case { cap_kind, cap_mag, batches, evict_seed })
+    (0u8..4, any::<u16>(), proptest::collection::vec(batch_strategy(), 1..=3), any::<u64>()).prop_map(|(cap_kind, cap_mag, batches, evict_seed)| C13Case { cap_kind, cap_mag, batches, evict_seed })
 }
 
 pub fn capacity_of(kind: u8, mag: u16) -> u64 {
@@ -57,10 +57,31 @@ pub fn capacity_of(kind: u8, mag: u16) -> u64 {
     }
 }
 
+/// capacity of a generated case; kind 3 = exactly the length of the largest item the case puts (that item
+/// fills the cache completely and no item is larger than the capacity)
+fn case_capacity(c: &C13Case) -> u64 {
+    if c.cap_kind % 4 == 3 {
+        let largest = c
+            .batches
+            .iter()
+            .flat_map(|b| b.threads.iter().flatten())
+            .filter(|op| matches!(op, Op::Put { .. }))
+            .map(|op| {
+                let (k, a, b) = op.range();
+                item_len(k, a, b)
+            })
+            .max();
+        if let Some(l) = largest {
+            return l;
+        }
+    }
+    capacity_of(c.cap_kind % 4 % 3, c.cap_mag)
+}
+
 fn random_oracle(c: &C13Case, info: &mut Case) -> Result<(), String> {
     let tmp = tempfile::Builder::new().prefix("xvc-").tempdir_in(crate::engine::work_dir()).map_err(|e| format!("[sig:infra] tempdir: {e}"))?;
     let root = tmp.path().join("cache");
-    let capacity = capacity_of(c.cap_kind, c.cap_mag);
+    let capacity = case_capacity(c);
     let mut cache = open(&root, capacity).map_err(|e| format!("[sig:c13-initialize] {e}"))?;
     let mut overlap = false;
     let mut evictions = false;
@@ -93,7 +114,7 @@ fn random_oracle(c: &C13Case, info: &mut Case) -> Result<(), String> {
     if evictions {
         info.label("entries-evicted-or-subsumed");
     }
-    info.label(format!("capacity-kind={}", c.cap_kind % 3));
+    info.label(format!("capacity-kind={}", ["tight", "medium", "ample", "exactly-the-largest-item"][c.cap_kind as usize % 4]));
     Ok(())
 }
 
